@@ -31,6 +31,14 @@ def run_check(pid: str, tier: str) -> int:
             return analysis_error(pid, 'no check implemented')
         raise
     try:
+        # a path explosion must end as a broken analysis (exit 2), not as a machine out of memory
+        import resource
+
+        lim = int(os.environ.get('SA_MEM_GB', '6')) * 2 ** 30
+        resource.setrlimit(resource.RLIMIT_AS, (lim, lim))
+    except (ValueError, OSError):
+        pass
+    try:
         repo = Repo()
         chk = Check(pid, tier, getattr(mod, 'LEVEL', 'other'))
         mod.run(repo, chk)
